@@ -101,7 +101,8 @@ ERR_OK = '(__CPROVER_w_ok(%s, 512) && __CPROVER_OBJECT_SIZE(%s) == 512 && __CPRO
 READ_CONTRACT = ('__CPROVER_requires(' + ERR_OK % ('err', 'err', 'err') + ' && __CPROVER_w_ok(v_p, sizeof(*v_p))) '
                  '__CPROVER_ensures(__CPROVER_return_value == NLW2_SOLRead_OK || __CPROVER_return_value == NLW2_SOLRead_Early_EOF '
                  '|| __CPROVER_return_value == NLW2_SOLRead_Bad_Line) '
-                 '__CPROVER_assigns(*v_p, __CPROVER_object_whole(err), g_nul_ptr)')
+                 'VP_FREAD_REQ VP_FREAD_ENS(__CPROVER_return_value == NLW2_SOLRead_OK && binary, sizeof(*v_p) - VP_PAD) '
+                 '__CPROVER_assigns(*v_p, __CPROVER_object_whole(err), g_nul_ptr VP_FREAD_ASSIGNS)')
 
 KINDS = {   # kind -> (C value type, Read function, C++ instantiation)
     'double': ('double', 'Read_double', 'double'),
@@ -137,7 +138,8 @@ def h_read(kind):
 void harness(void) { VP_INIT; FILE f; char *err = vp_malloc(512); %s v;
   %s(&f, nondet_int(), &v, err); VP_REACH("normal return"); }
 ''' % (vt, name)]
-    return Harness('C14.Read.' + kind, 'C14', parts, enforce=name, stubs=['fgets', 'fread', 'strtod', 'strtol'])
+    return Harness('C14.Read.' + kind, 'C14', parts, enforce=name, stubs=['fgets', 'fread', 'strtod', 'strtol'], defines=['VP_TRACK_FREAD', 'VP_PAD=%d' % (4 if kind == 'pair_double' else 0)],
+                   note='binary form: a value reported as read (OK) was read completely - fread delivered every byte of it')
 
 
 VR = '''
